@@ -53,6 +53,9 @@ pub(crate) struct DownSampledData<R: Resampler> {
     config: Config,
     samples_in_bin: usize,
     debug_tss: Vec<Timestamp>,
+    /// Source lines that are already part of the last bucket in the cache even
+    /// though they are not in the source (anymore), see [`repair`].
+    lines_to_skip: u64,
 
     resampler: R,
     // u128: a bucket of timestamps close to u64::MAX must not overflow
@@ -132,12 +135,13 @@ where
             ts_sum: 0,
             samples_in_bin: 0,
             debug_tss: Vec::new(),
+            lines_to_skip: 0,
         })
     }
 
     #[instrument(level = "debug", skip(resampler, corruption_callback))]
     pub(crate) fn open(
-        mut resampler: R,
+        resampler: R,
         config: Config,
         source_path: &Path,
         source: &mut Data,
@@ -158,19 +162,10 @@ where
             })
             .map_err(OpenError::Data)?;
         let (file, _) = file.split_off_header();
-        let mut data = Data::open_existing(path, file, payload_size, corruption_callback)
+        let data = Data::open_existing(path, file, payload_size, corruption_callback)
             .map_err(OpenError::Data)?;
 
-        repair::add_missing_data(
-            source,
-            &mut data,
-            &config,
-            &mut resampler,
-            corruption_callback,
-        )
-        .map_err(OpenError::Repair)?;
-
-        Ok(Self {
+        let mut opened = Self {
             data,
             resample_state: resampler.state(),
             resampler,
@@ -178,7 +173,11 @@ where
             ts_sum: 0,
             samples_in_bin: 0,
             debug_tss: Vec::new(),
-        })
+            lines_to_skip: 0,
+        };
+        repair::add_missing_data(source, &mut opened, corruption_callback)
+            .map_err(OpenError::Repair)?;
+        Ok(opened)
     }
 
     #[instrument(level = "debug", skip(source, corruption_callback))]
@@ -272,6 +271,10 @@ where
 {
     #[instrument(level = "trace", skip(self, line))]
     fn process(&mut self, ts: Timestamp, line: &[u8]) -> Result<(), data::PushError> {
+        if self.lines_to_skip > 0 {
+            self.lines_to_skip -= 1;
+            return Ok(());
+        }
         let data = self.resampler.decode_payload(line);
         self.resample_state.add(data);
         self.ts_sum += u128::from(ts);
